@@ -1077,9 +1077,10 @@ def run_entry(family, case, ctx):
         if isinstance(ops.get(k), dict) and "cls" in ops[k]:
             label = label.replace("S.", ops[k]["cls"] + ".", 1)
     ctx.label(label)
-    for k in ("b", "c", "new"):
-        if isinstance(ops.get(k), dict) and "rel" in ops[k]:
-            ctx.label("operand relation: " + ops[k]["rel"])
+    if not entry.exempt:
+        for k in ("b", "c", "new"):
+            if isinstance(ops.get(k), dict) and "rel" in ops[k]:
+                ctx.label("operand relation: " + ops[k]["rel"])
     targets = {k: v for k, v in operands.items() if k not in entry.exempt}
     before = {k: FP.fingerprint(v, root=k) for k, v in targets.items()}
 
